@@ -323,8 +323,8 @@ class World:
         for l, lo in enumerate(self.listeners):
             info = self.sockets.items[l].v
             dl = self.field(info, 'ServerSocketInfo', 'timeout').v
-            s += ' L%d:reg=%d,bl=%d,dl=%s,link=%d,tok=%d' % (l, 1 if lo.registered else 0, len(lo.script), 'none' if dl.variant == 'None' else str(cv(dl.f[0].v)),
-                                                          -1 if lo.kind == 'Tcp' else (1 if lo.path_linked else 0), cv(self.field(info, 'ServerSocketInfo', 'token').v))
+            s += ' L%d:reg=%d,bl=%d,dl=%s,link=%d,tok=%d,acc=%d' % (l, 1 if lo.registered else 0, len(lo.script), 'none' if dl.variant == 'None' else str(cv(dl.f[0].v)),
+                                                          -1 if lo.kind == 'Tcp' else (1 if lo.path_linked else 0), cv(self.field(info, 'ServerSocketInfo', 'token').v), lo.next_id)
         cmds = ['F%d' % cv(x.f[0].v) if (isinstance(x, Enum) and x.variant == 'WorkerFaulted') else 'other' for x in self.cmd.q]
         s += ' cmd=[%s] clock=%d fin=%s lost=%s' % (','.join(cmds), cv(self.ex.clock), self.finished, self.lost_with_dead)
         return s
